@@ -6,7 +6,11 @@ mod intern;
 #[cfg(not(feature = "stateless"))]
 mod ffi_exec;
 #[cfg(not(feature = "stateless"))]
+mod hash_exec;
+#[cfg(not(feature = "stateless"))]
 mod misc_exec;
+#[cfg(not(feature = "stateless"))]
+mod ops_exec;
 #[cfg(not(feature = "stateless"))]
 mod proto_exec;
 #[cfg(not(feature = "stateless"))]
@@ -37,6 +41,25 @@ fn main() {
     match args[1].as_str() {
         "tree" => cmd_tree(&args),
         "cfgrun" => cmd_cfgrun(&args),
+        #[cfg(not(feature = "stateless"))]
+        "hashes" => {
+            let mut out = Vec::new();
+            hash_exec::run(arg(&args, "--seed").unwrap_or("1").parse().unwrap(), arg(&args, "--consts").expect("--consts"),
+                           arg(&args, "--tier") == Some("thorough"), &mut out);
+            write_ndjson(arg(&args, "--out").expect("--out"), &out);
+        }
+        #[cfg(not(feature = "stateless"))]
+        "graphs" => {
+            let mut out = Vec::new();
+            ops_exec::run_graphs(arg(&args, "--seed").unwrap_or("1").parse().unwrap(), arg(&args, "--count").unwrap_or("150").parse().unwrap(), &mut out);
+            write_ndjson(arg(&args, "--out").expect("--out"), &out);
+        }
+        #[cfg(not(feature = "stateless"))]
+        "ops" => {
+            let mut out = Vec::new();
+            ops_exec::run_ops(arg(&args, "--seed").unwrap_or("1").parse().unwrap(), arg(&args, "--tier") == Some("thorough"), &mut out);
+            write_ndjson(arg(&args, "--out").expect("--out"), &out);
+        }
         #[cfg(not(feature = "stateless"))]
         "conc" => {
             let mut out = Vec::new();
